@@ -126,7 +126,7 @@ pub fn run(ctx: &mut Ctx) {
     ctx.meta("rule", "cases: (input, tolerance, buffered set); inputs = documents of T∘E (known/unknown-size mixes, deep spines) with EVERY subset of the masters present in the document (+ one absent master) as buffered set, every single mutation of the smaller documents and every Σ string up to length n with a fixed family of buffered sets; strict and all-tolerant. Oracle: the buffered parse, with each Full replaced by Start/children/End, walked in lock-step against the unbuffered parse of the same bytes: equal items, equal offsets outside buffered masters, Full offset == flat Start offset, clean end iff clean end, error => prefix + error. Non-trivial: pairs emitting a Full with >= 1 child.");
     ctx.meta("bounds", &format!("documents <= {} elements, all subsets of present masters; Σ* length <= {}", ctx.tier.pick(5, 6), n));
     ctx.meta("assumptions", "end-of-stream closing left at its default (on): with it disabled a buffered master open at the end of input cannot be completed by definition");
-    for c in ["full_items", "nested_full", "error_after_full", "end_queued_before_buffered_master", "unknown_size_buffered"] {
+    for c in ["full_items", "nested_full", "error_after_full", "end_queued_before_buffered_master", "unknown_size_buffered", "buffer_boundary_docs"] {
         ctx.expect_nonzero(c);
     }
     let strict = Cfg::strict();
@@ -170,6 +170,17 @@ pub fn run(ctx: &mut Ctx) {
         }
         !ctx.should_stop()
     });
+    for (i, doc) in docs::buffer_boundary_docs(ctx.tier.pick(16, 64)).into_iter().enumerate() {
+        if !ctx.mine(i as u64) {
+            continue;
+        }
+        let (bytes, _) = ref_encode(&doc);
+        let flat = parse_slice::<V>(&bytes, &strict);
+        ctx.count("buffer_boundary_docs", 1);
+        for set in [vec![ID_M], vec![ID_ROOT], vec![ID_L, ID_N], vec![ID_ROOT, ID_M, ID_N, ID_K, ID_L]] {
+            run_pair(ctx, &bytes, &strict, &flat, &set, "buffer-boundary-doc");
+        }
+    }
     // Σ*
     let sets: Vec<Vec<u64>> = vec![vec![ID_ROOT], vec![ID_M], vec![ID_ROOT, ID_M], vec![ID_EBML, ID_ROOT, ID_M, ID_N, ID_K, ID_L, ID_P]];
     let (shard, nshards) = (ctx.shard, ctx.nshards);
